@@ -33,57 +33,57 @@ var commonAssume = []string{
 }
 
 var propMetas = []*propMeta{
-	{ID: "C01", Level: "other", DesignRef: "DESIGN.md §4 C01, §3 E1/E4/E6/E7/E8/E9",
+	{ID: "C01", Ready: true, Level: "other", DesignRef: "DESIGN.md §4 C01, §3 E1/E4/E6/E7/E8/E9",
 		Technique:   "static analysis: delegation equivalence, rounding decision-table extraction (288 cells), class-domain abstract interpretation of Add/Sub dispatch, scale/exponent pairing, sticky accounting, guard dominance",
 		LevelText:   "Structural necessary conditions of correct rounding decided on every path: wrappers delegate with DefaultRoundingMode (fully decided), the rounding decision table of round() equals the IEEE definition in all 288 abstract cells, every special/zero/cancellation cell of Add/Sub returns the specified class and sign, every ×10^k/÷10^k of a significand is paired with ∓k on its exponent, every dropped remainder reaches the sticky flag, overflow reaches compose only through the Inf guard.",
 		Explanation: "Each obligation is one construct (wrapper body, decision-table cell, dispatch cell, scaling event, remainder, guard) decided from the AST and type information of the current /repo; no repository code is executed.",
 		NotDecided:  "that the aligned 128-bit add/subtract is arithmetically right, tightness of the 35-digit swallow thresholds, i.e. the numeric result itself"},
-	{ID: "C02", Level: "other", DesignRef: "DESIGN.md §4 C02",
+	{ID: "C02", Ready: true, Level: "other", DesignRef: "DESIGN.md §4 C02",
 		Technique:   "static analysis: delegation equivalence, rounding decision table, class-domain dispatch interpretation of Mul/Quo, scale pairing in long-division loops, constant-table evaluation of divK/product grids",
 		LevelText:   "Wrappers, the full special-operand table (0×Inf, x/0, 0/0, Inf/Inf, XOR sign), sign provenance, scale conservation in both division loops and reduce256, remainder→sticky flow, divK divisor constants, partial-product grids and the rounding decision table are decided on all paths.",
 		Explanation: "One obligation per construct; see rules_applied.",
 		NotDecided:  "quotient-estimate correction in uint128.div/uint192.div, product carries, that the digit loop yields enough digits — the arithmetic"},
-	{ID: "C03", Level: "other", DesignRef: "DESIGN.md §4 C03",
+	{ID: "C03", Ready: true, Level: "other", DesignRef: "DESIGN.md §4 C03",
 		Technique:   "static analysis: class-domain dispatch interpretation of QuoRem (pairs of results), three-exponent scale pairing, guard dominance",
 		LevelText:   "The special table for both results, remainder sign provenance, coupled exponent adjustments (exp/qexp/rexp) in all loops, and the overflow guards of both results are decided on all paths.",
 		Explanation: "One obligation per construct; see rules_applied.",
 		NotDecided:  "exactness of the remainder and truncation of the quotient for large exponent gaps (value level)"},
-	{ID: "C04", Level: "other", DesignRef: "DESIGN.md §4 C04, §3 E5",
+	{ID: "C04", Ready: true, Level: "other", DesignRef: "DESIGN.md §4 C04, §3 E5",
 		Technique:   "static analysis: class-domain dispatch interpretation of the comparison family on all 49 class pairs, conditional constant propagation of the exponent gap (-40..40) through Cmp/CmpAbs/Equal, mask-test extraction",
 		LevelText:   "All class-pair outcomes (NaN, infinities, zeros, opposite signs, Min/Max/Compare orientation through Cmp summaries) and, for every exponent gap, that both coefficients are brought to the same scale before the final comparison are decided.",
 		Explanation: "Dispatch cells and one obligation per (function, gap, sink).",
 		NotDecided:  "the magnitude comparison of two same-sign finite operands after alignment (early-return conditions on coefficient order, the trunc tie-break)"},
-	{ID: "C05", Level: "other", DesignRef: "DESIGN.md §4 C05, §3 E10",
+	{ID: "C05", Ready: true, Level: "other", DesignRef: "DESIGN.md §4 C05, §3 E10",
 		Technique:   "static analysis: extraction of the lexer automaton from the flag assignments of parseNumber and language-equality check against the documented grammar; special-name matcher tables; error-type mapping; narrow-accumulator and early-out admissibility guards",
 		LevelText:   "The accepted language equals the documented grammar for both separator modes, the special names are matched case-insensitively at lengths 3/8 only, error types map to ErrSyntax/ErrRange, MustParse panics iff parse errs, zero keeps its sign, counters cannot wrap and early-outs are admissible, and the final rounding goes through reduce128 with DefaultRoundingMode and the Inf guard.",
 		Explanation: "Automaton states/transitions and one obligation per construct.",
 		NotDecided:  "that the accumulated coefficient equals the digits read and that the result is the correct rounding (value level)"},
-	{ID: "C06", Level: "other", DesignRef: "DESIGN.md §4 C06",
+	{ID: "C06", Ready: true, Level: "other", DesignRef: "DESIGN.md §4 C06",
 		Technique:   "static analysis: constant call-argument and layout-threshold extraction for the four default text paths, table evaluation (digitPairs, special texts), call-graph reachability (no rounding on default paths)",
 		LevelText:   "Special texts, the -4/6 layout thresholds and two-digit exponent padding on all four default paths, the digit-pair table, absence of digits.round on default paths and privacy of the unsafe string buffer are decided.",
 		Explanation: "One obligation per construct.",
 		NotDecided:  "digit extraction correctness, absence of superfluous digits, round trip through Parse (value level)"},
-	{ID: "C07", Level: "other", DesignRef: "DESIGN.md §4 C07",
+	{ID: "C07", Ready: true, Level: "other", DesignRef: "DESIGN.md §4 C07",
 		Technique:   "static analysis: decision-table extraction of digits.round (half-even), flag-character to field map agreement between parseFormat and Decimal.Format, round-before-emit dominance",
 		LevelText:   "digits.round is half-to-even in every abstract cell, both flag parsers map the same characters to the same fields with fmt's '-'/'0' interaction, and every verb arm rounds before emitting.",
 		Explanation: "One obligation per cell/construct.",
 		NotDecided:  "padding arithmetic, carry propagation over runs of 9, %g precision bookkeeping, general agreement with package fmt"},
-	{ID: "C08", Level: "other", DesignRef: "DESIGN.md §4 C08",
+	{ID: "C08", Ready: true, Level: "other", DesignRef: "DESIGN.md §4 C08",
 		Technique:   "static analysis: delegation equivalence, dispatch interpretation, Ceil/Floor increment-direction table, scale pairing, narrowing-conversion guards",
 		LevelText:   "Package functions equal the method forms with the stated constants (fully decided), specials pass through, zero keeps sign, Round uses the shared decision table, Ceil/Floor increment iff sticky and sign match, digit dropping is exponent-paired, and every compose is range-guarded including the tiny-value branch and the negation of dp.",
 		Explanation: "One obligation per construct.",
 		NotDecided:  "never farther than one quantum, idempotence, the quantised value itself"},
-	{ID: "C09", Level: "other", DesignRef: "DESIGN.md §4 C09",
+	{ID: "C09", Ready: true, Level: "other", DesignRef: "DESIGN.md §4 C09",
 		Technique:   "static analysis: delegation equivalence, binary64 field-constant evaluation, dispatch interpretation of float classes, decimal/binary scale pairing, sticky accounting",
 		LevelText:   "NaN/Inf/zero mapping both ways, Float32/FromFloat32 delegation, IEEE binary64 field constants, scale pairing incl. mul1e38↔-38, shifted-out bits→sticky, rounding via reduce256 with the default mode behind the Inf guard, admissible Float64 early-outs, and read-only use of the big.Float argument are decided.",
 		Explanation: "One obligation per construct.",
 		NotDecided:  "faithfulness of Float64, exactness of FromFloat64, the round-trip identity (value level)"},
-	{ID: "C10", Level: "other", DesignRef: "DESIGN.md §4 C10",
+	{ID: "C10", Ready: true, Level: "other", DesignRef: "DESIGN.md §4 C10",
 		Technique:   "static analysis: body-shape verification of FromInt64/FromUint64, saturation-bound constant evaluation in IntN/UintN, who-may-panic, truncating-consumer list, input immutability",
 		LevelText:   "Exact-by-construction small-integer constructors, saturated bounds and overflow comparison constants of IntN/UintN, panics only for NaN, blank remainders only in truncating consumers, FromInt copies before mutating and folds remainders into sticky, FromRat delegates to FromInt/Quo; also analysed under GOARCH=386 in the thorough tier.",
 		Explanation: "One obligation per construct.",
 		NotDecided:  "the converted values themselves"},
-	{ID: "C11", Level: "other", DesignRef: "DESIGN.md §4 C11, App. F",
+	{ID: "C11", Ready: true, Level: "other", DesignRef: "DESIGN.md §4 C11, App. F",
 		Technique:   "static analysis: dispatch interpretation, admissible-interval computation for early-out thresholds, narrowing-conversion guards, scale pairing",
 		LevelText:   "Zero/NaN/Inf pass through with e=0, the early-out thresholds of New and Ldexp are admissible (computed from operand ranges), int16 conversions are in range, and rounding goes through reduce with the Inf guard.",
 		Explanation: "One obligation per construct.",
@@ -94,42 +94,42 @@ var propMetas = []*propMeta{
 		Explanation: "Every obligation must be discharged; obligations = table entries, body shapes, guards, field facts, literals.",
 		NotDecided:  "nothing of the stated property beyond the trusted base (values produced by arithmetic are C01.. concerns)",
 		Trusted:     []string{"Go semantics of shifts, byte() truncation and array indexing", "the body-shape matcher of rules_layout.go", "go/types constant evaluation"}},
-	{ID: "C13", Level: "other", DesignRef: "DESIGN.md §4 C13",
+	{ID: "C13", Ready: true, Level: "other", DesignRef: "DESIGN.md §4 C13",
 		Technique:   "static analysis: constant call-argument extraction of MarshalJSON, commit-on-success path check of UnmarshalJSON, lexer automaton with separators disabled",
 		LevelText:   "NaN/Inf give *json.UnsupportedValueError, MarshalJSON calls the emitters with all sign/pad flags false and width 0, UnmarshalJSON returns before any store on null, stores only on the success path, returns non-nil on every failure path, and the lexer rejects '_' everywhere when separators are disabled.",
 		Explanation: "One obligation per construct.",
 		NotDecided:  "RFC 8259 validity of every emitted token, value equality; direct calls accept some non-JSON numerals (+1, 01, .5) that encoding/json never forwards"},
-	{ID: "C14", Level: "other", DesignRef: "DESIGN.md §4 C14",
+	{ID: "C14", Ready: true, Level: "other", DesignRef: "DESIGN.md §4 C14",
 		Technique:   "static analysis: byte-table extraction of Decompose, exact-or-error remainder flow in Compose, call-graph unreachability of rounding, commit on success",
 		LevelText:   "Decompose writes the big-endian coefficient table and trims leading zeros, forms 1/2 for Inf/NaN; in Compose every division remainder is tested and the non-zero path returns an error, no rounding function is reachable, unknown forms are errors, the receiver is stored only on success, scaling is exponent-paired and range-guarded.",
 		Explanation: "One obligation per construct.",
 		NotDecided:  "arithmetic of the staged reduction"},
-	{ID: "C15", Level: "other", DesignRef: "DESIGN.md §4 C15, §3 E9, App. A",
+	{ID: "C15", Ready: true, Level: "other", DesignRef: "DESIGN.md §4 C15, §3 E9, App. A",
 		Technique:   "static analysis: class-domain abstract interpretation of every operation's dispatch prologue against an IEEE 754 / Go math specification table; mask-test partition check of the class predicates; payload registry agreement",
 		LevelText:   "For ~35 operations and every tuple of operand classes {NaN,±Inf,±0,±finite(,±1)} the outcome on every path equals the specification (class, sign, payload triple, or SAME operand); the class predicates partition all bit patterns; payload packing, names and arity agree; NaN is constructed only in dispatch cells.",
 		Explanation: "One obligation per (operation, class tuple) cell plus layout/payload facts.",
 		NotDecided:  "Pow cells that depend on |x| vs 1 or on the parity of y beyond the code's own opaque predicates (both outcomes are required to be individually admissible)"},
-	{ID: "C16", Level: "other", DesignRef: "DESIGN.md §4 C16",
+	{ID: "C16", Ready: true, Level: "other", DesignRef: "DESIGN.md §4 C16",
 		Technique:   "static analysis: dispatch interpretation, constant evaluation of ln tables to 256 bits, scale pairing and sticky accounting in decomposed192 primitives, dropped-factor liveness",
 		LevelText:   "Special/zero dispatch, the ln/ln10/ln2/invLn10/invLn2/10^57 constants, scale conservation in all 192-bit primitives and the integer/fraction split of Exp2/Exp10, liveness of every scaled value, and range exits are decided.",
 		Explanation: "One obligation per construct.",
 		NotDecided:  "one-ulp accuracy, exactness of exactly representable results, series convergence"},
-	{ID: "C17", Level: "other", DesignRef: "DESIGN.md §4 C17",
+	{ID: "C17", Ready: true, Level: "other", DesignRef: "DESIGN.md §4 C17",
 		Technique:   "static analysis: dispatch interpretation of Sqrt/Cbrt, result-sign provenance, scale pairing in primitives",
 		LevelText:   "Zeros/+Inf(/-Inf) returned, negative→NaN(Sqrt,…), result sign provenance, final rounding via reduce192 behind the Inf guard, and scale conservation in the primitives are decided.",
 		Explanation: "One obligation per construct.",
 		NotDecided:  "convergence of the Heron/Halley iterations, correct rounding, perfect squares/cubes"},
-	{ID: "C18", Level: "other", DesignRef: "DESIGN.md §4 C18",
+	{ID: "C18", Ready: true, Level: "other", DesignRef: "DESIGN.md §4 C18",
 		Technique:   "static analysis: delegation equivalence, dispatch interpretation of the Pow shortcut ladder on 81 class pairs, p10 table evaluation, early-out admissibility, sign-consistency of round and compose",
 		LevelText:   "The wrapper, the shortcut ladder (y=0, x=1, y=±1, NaN, ±0/±Inf bases, negative base with non-integer y), the p10 tables, the admissible power-of-ten early-out, 64-bit exponent arithmetic bounds and result-sign consistency are decided.",
 		Explanation: "One obligation per cell/construct.",
 		NotDecided:  "accuracy of log→mul→exp, overflow/underflow thresholds on the general path"},
-	{ID: "C19", Level: "other", DesignRef: "DESIGN.md §4 C19",
+	{ID: "C19", Ready: true, Level: "other", DesignRef: "DESIGN.md §4 C19",
 		Technique:   "static analysis: raw-bits layering (who reads lo/hi), dispatch interpretation (verdicts hold for every encoding of a class), Canonical commit-idiom loops",
 		LevelText:   "Raw words are read only by the encoding layer so every operation sees operands only as (class, sign, coefficient, exponent); Canonical returns bare encodings for specials/zeros and its loops move the exponent toward the bias in exponent-paired commit steps bounded by the coefficient limit.",
 		Explanation: "One obligation per construct.",
 		NotDecided:  "that different (coefficient, exponent) pairs of one value give equal results — the arithmetic again"},
-	{ID: "C20", Level: "other", DesignRef: "DESIGN.md §4 C20, §3 E11",
+	{ID: "C20", Ready: true, Level: "other", DesignRef: "DESIGN.md §4 C20, §3 E11",
 		Technique:   "static analysis: who-may-panic set with dominating guards, shared-state write freedom, import/goroutine freedom, input immutability, loop-progress rule, compiler bounds-check-elimination cross-reference",
 		LevelText:   "Explicit panics are exactly the documented ones and guarded; no package-level state is written and no concurrency primitive is used, hence data-race freedom for all interleavings that do not write DefaultRoundingMode; pointer/slice inputs are only read; every loop makes progress on a variable its condition reads; in the thorough tier the unproven bounds checks reported by the compiler are pinned to a reviewed list.",
 		Explanation: "One obligation per construct.",
